@@ -157,7 +157,7 @@ HEADER = "/-! GENERATED by tools/gen_nopy.py — %s -/"
 expr_src = rd("MsqModel/Parse/Expr.lean")
 mpos = expr_src.index("\nmutual\n"); epos = expr_src.index("\nend\n", mpos)
 pre = [d for d in parse_defs(expr_src[:mpos]) if typed(d) or d.alias]
-known = list(HAND)
+known = sorted(HAND)      # sorted: the output must not depend on the hash seed
 out = ["import MsqProofs.Lemmas.ParseNoPyPrim",
        HEADER % "outcome typing of the expression / SELECT parser model: no function returns an error outside `Err.parserKind`",
        "open Lex PM Ast", "namespace PM", ""]
